@@ -617,7 +617,9 @@ theorem ready_of_started {s : Ev} (h : Started s.jobs) (hG : GenLe s.semGen s.jo
 theorem ready_after_submit {s : Ev} (nAsk : Nat) (hst : Started s.jobs) (hG : GenLe s.semGen s.jobs)
     (hW : nAsk ≤ s.W) : Ready (submitCap (askStep s) nAsk).1 := by
   obtain ⟨extra, h1, h2, h3, _, h5, h6, _⟩ := submitCap_spec nAsk (askStep s)
-  simp only at h1 h5 h6
+  rw [show (askStep s).jobs = s.jobs from rfl] at h1
+  rw [show (askStep s).W = s.W from rfl] at h5
+  rw [show (askStep s).semGen = s.semGen + 1 from rfl] at h6
   refine ⟨?_, ?_, ?_⟩
   · rw [h1]
     intro j hj
@@ -660,7 +662,7 @@ theorem loop_live (strict : Bool) (target : Int) :
     split
     · have hready := ready_after_submit nAsk hst hG (by omega)
       obtain ⟨extra, _, _, _, _, h5, _, _⟩ := submitCap_spec nAsk (askStep s)
-      simp only at h5
+      rw [show (askStep s).W = s.W from rfl] at h5
       generalize submitCap (askStep s) nAsk = sub at hready h5 ⊢
       split
       · exact ⟨by simp, by simp, fun _ => ⟨hready, h5⟩⟩
@@ -674,7 +676,8 @@ theorem loop_live (strict : Bool) (target : Int) :
     · have hready := ready_after_submit nAsk hst hG (by omega)
       have hrsub := rep_submitCap nAsk (askStep s) (rep_cfg (s := s) rfl rfl rfl hrep)
       obtain ⟨extra, _, _, h3, h4, h5, _, h7⟩ := submitCap_spec nAsk (askStep s)
-      simp only at h4 h5
+      rw [show (askStep s).running = s.running from rfl] at h4
+      rw [show (askStep s).W = s.W from rfl] at h5
       generalize submitCap (askStep s) nAsk = sub at hready hrsub h4 h5 h7 ⊢
       split
       · exact ⟨by simp, by simp, fun _ => ⟨hready, h5⟩⟩
